@@ -218,6 +218,17 @@ Proof.
     destruct par as [q|]; cbn in IHp; try rewrite IHp; reflexivity.
 Qed.
 
+Lemma collect_pred_spec pred s n c :
+  collect_pred pred s c n
+  = collect_spec (map (fun c' => (filter pred (fst (get_functions s c' n)), snd (get_functions s c' n))) (chain c)).
+Proof.
+  induction c as [p par IHp|ms par _ IHp|l par _ IHp] using ctx_ind';
+    cbn [collect_pred chain map collect_spec];
+    match goal with |- context [get_functions s ?c n] => destruct (get_functions s c n) as [fs ex] end;
+    cbn [fst snd]; destruct ex; destruct (filter pred fs); try reflexivity;
+    destruct par as [q|]; cbn in IHp; try rewrite IHp; reflexivity.
+Qed.
+
 (* ---- construction ------------------------------------------------------------ *)
 Lemma flatten_cons c :
   flatten c = sources c :: match parent_of c with Some p => flatten p | None => [] end.
